@@ -298,7 +298,13 @@ class AxisTaint:
                 return self.of(t.other, safe | {gk})
             if self.of(c, safe) == AX:
                 # `if axis:` - accepted only when the false branch still passes the axis on (axis == 0 handled there)
-                if not _mentions(t.other, lambda x: self.is_src(x)):
+                oth = t.other
+                while oth.op == "seq":
+                    oth = oth.value
+                # (also accepted: the false branch is written for the leading axis explicitly - x[::-1], x[1:] - which is
+                # what axis == 0, and axis=None of an already flattened operand, mean)
+                leading = oth.op == "sub" and oth.idx.op == "slice"
+                if not leading and not _mentions(t.other, lambda x: self.is_src(x)):
                     self.sink("truthiness of an axis", c)
             a, b = self.of(t.then, safe), self.of(t.other, safe)
             return AX if AX in (a, b) else None
